@@ -124,7 +124,8 @@ Proof.
 Qed.
 
 (* ------------------------------------------------------------------ *)
-(* (6) target_to_bits = GetCompact for 0x8000 <= t < 2^256 *)
+(* (6) target_to_bits = GetCompact for EVERY 0 <= t < 2^256 (de6be4c: targets below three
+   base-256 digits are padded, 0 gives 0x00000000) *)
 
 Lemma strip_spec t : 0 <= t < 2 ^ 256 ->
   int_to_be t 32 = Ok (to_be 32 t) /\
@@ -141,15 +142,18 @@ Qed.
 Lemma byte_of_ok l : bytes_ok l -> forall b, In b l -> 0 <= b < 256.
 Proof. unfold bytes_ok. rewrite Forall_forall. intros H b Hb. apply H, Hb. Qed.
 
-Lemma target_to_bits_core t :
-  32768 <= t < 2 ^ 256 ->
+Lemma target_to_bits_all t :
+  0 <= t < 2 ^ 256 ->
   exists bits, target_to_bits t = Ok bits /\ length bits = 4%nat /\ bytes_ok bits /\
                from_le bits = get_compact t.
 Proof.
-  intros Ht. destruct (strip_spec t ltac:(lia)) as [E1 [Hok Hv]].
-  unfold target_to_bits. rewrite E1. cbn [bind].
+  intros Ht. destruct (strip_spec t Ht) as [E1 [Hok Hv]].
+  unfold target_to_bits. rewrite E1. cbn [bind]. cbv zeta.
   destruct (lstrip_zero (to_be 32 t)) as [|b0 rest] eqn:ER.
-  { cbn in Hv. unfold from_be in Hv. cbn in Hv. lia. }
+  { (* t = 0 *)
+    assert (t = 0) as -> by (unfold from_be in Hv; cbn in Hv; lia).
+    exists [0; 0; 0; 0]. split; [reflexivity|]. split; [reflexivity|]. split; [|reflexivity].
+    repeat constructor; unfold byte_ok; lia. }
   pose proof (lstrip_zero_head _ _ _ ER) as Hnz.
   assert (length (b0 :: rest) <= 32)%nat as HLen.
   { assert (forall l, length (lstrip_zero l) <= length l)%nat as HL.
@@ -161,21 +165,38 @@ Proof.
   assert (bytes_ok rest) as Hrest by (now inversion Hok).
   pose proof (from_be_bound rest Hrest) as Hfr.
   destruct rest as [|b1 rest1].
-  { (* one byte: t < 256 *) cbn in Hv. unfold from_be, pow256 in Hv. cbn in Hv. lia. }
+  { (* one byte: t = b0 *)
+    unfold from_be, pow256 in Hv. cbn in Hv. assert (t = b0) as -> by lia.
+    rewrite (get_compact_small b0 1) by (change (256 ^ (1 - 1)) with 1; change (256 ^ 1) with 256; lia).
+    change (256 ^ (3 - 1)) with 65536. unfold compact_of.
+    rewrite (sign_bit_of (b0 * 65536) b0 0) by lia.
+    destruct (Z.ltb_spec 127 b0) as [G|G].
+    - destruct (Z.leb_spec 128 b0) as [_|]; [|lia]. change (negb (8388608 =? 0)) with true. cbv iota.
+      exists [0; b0; 0; 2]. split; [reflexivity|]. split; [reflexivity|]. split.
+      { repeat constructor; unfold byte_ok; lia. }
+      replace (b0 * 65536) with (256 * (256 * b0) + 0) by lia. rewrite shiftr8 by lia.
+      rewrite lor_disjoint by lia. cbn [from_le]. lia.
+    - destruct (Z.leb_spec 128 b0) as [|_]; [lia|]. change (negb (0 =? 0)) with false. cbv iota.
+      exists [0; 0; b0; 1]. split; [reflexivity|]. split; [reflexivity|]. split.
+      { repeat constructor; unfold byte_ok; lia. }
+      rewrite lor_disjoint by lia. cbn [from_le]. lia. }
   assert (0 <= b1 < 256) as Hb1 by (apply HB; right; now left).
   destruct rest1 as [|b2 tl].
   - (* two bytes *)
     unfold from_be, pow256 in Hv. cbn in Hv.
-    assert (128 <= b0) as H128 by lia.
-    destruct (Z.ltb_spec 127 b0) as [_|]; [|lia].
-    exists [b1; b0; 0; 3]. split; [reflexivity|]. split; [reflexivity|]. split.
-    { repeat constructor; unfold byte_ok; lia. }
     rewrite (get_compact_small t 2) by (change (256 ^ (2 - 1)) with 256; change (256 ^ 2) with 65536; lia).
     change (256 ^ (3 - 2)) with 256. unfold compact_of.
     rewrite (sign_bit_of (t * 256) b0 (256 * b1)) by lia.
-    destruct (Z.leb_spec 128 b0) as [_|]; [|lia]. change (negb (8388608 =? 0)) with true. cbv iota.
-    replace (t * 256) with (256 * t + 0) by lia. rewrite shiftr8 by lia.
-    rewrite lor_disjoint by lia. cbn [from_le]. lia.
+    destruct (Z.ltb_spec 127 b0) as [G|G].
+    + destruct (Z.leb_spec 128 b0) as [_|]; [|lia]. change (negb (8388608 =? 0)) with true. cbv iota.
+      exists [b1; b0; 0; 3]. split; [reflexivity|]. split; [reflexivity|]. split.
+      { repeat constructor; unfold byte_ok; lia. }
+      replace (t * 256) with (256 * t + 0) by lia. rewrite shiftr8 by lia.
+      rewrite lor_disjoint by lia. cbn [from_le]. lia.
+    + destruct (Z.leb_spec 128 b0) as [|_]; [lia|]. change (negb (0 =? 0)) with false. cbv iota.
+      exists [0; b1; b0; 2]. split; [reflexivity|]. split; [reflexivity|]. split.
+      { repeat constructor; unfold byte_ok; lia. }
+      rewrite lor_disjoint by lia. cbn [from_le]. lia.
   - (* at least three bytes *)
     assert (0 <= b2 < 256) as Hb2 by (apply HB; right; right; now left).
     assert (bytes_ok tl) as Htl.
@@ -212,30 +233,29 @@ Proof.
       rewrite lor_disjoint by lia. cbn [from_le]. unfold m. lia.
 Qed.
 
-(* below 0x8000: fewer than four bytes; zero raises *)
-Lemma target_to_bits_small :
-  (forall t, 0 < t < 32768 -> exists bits, target_to_bits t = Ok bits /\ (length bits < 4)%nat) /\
-  target_to_bits 0 = Err /\ get_compact 0 = 0.
+(* outside [0, 2^256): int.to_bytes raises OverflowError *)
+Lemma target_to_bits_out_of_range t : t < 0 \/ 2 ^ 256 <= t -> target_to_bits t = Err.
 Proof.
-  split; [|split; reflexivity].
-  intros t Ht. destruct (strip_spec t ltac:(lia)) as [E1 [Hok Hv]].
-  unfold target_to_bits. rewrite E1. cbn [bind].
-  destruct (lstrip_zero (to_be 32 t)) as [|b0 rest] eqn:ER.
-  { cbn in Hv. unfold from_be in Hv. cbn in Hv. lia. }
-  pose proof (lstrip_zero_head _ _ _ ER) as Hnz.
-  pose proof (byte_of_ok _ Hok) as HB.
-  assert (0 <= b0 < 256) as Hb0 by (apply HB; now left).
-  assert (bytes_ok rest) as Hrest by (now inversion Hok).
-  destruct rest as [|b1 [|b2 tl]].
-  - destruct (127 <? b0); eexists; (split; [reflexivity | cbn; lia]).
-  - rewrite from_be_cons in Hv. unfold from_be, pow256 in Hv. cbn in Hv.
-    assert (0 <= b1 < 256) as Hb1 by (apply HB; right; now left).
-    destruct (Z.ltb_spec 127 b0); [lia|]. eexists; (split; [reflexivity | cbn; lia]).
-  - exfalso. rewrite from_be_cons in Hv. cbn [length] in Hv. rewrite !pow256_S in Hv.
-    pose proof (from_be_bound _ Hrest) as Hfr. pose proof (pow256_pos (length tl)) as HP.
-    set (P := pow256 (length tl)) in *.
-    assert (1 <= b0) as Hb1 by lia.
-    assert (65536 * 1 <= b0 * (256 * (256 * P))) by nia. lia.
+  intros H. unfold target_to_bits, int_to_be.
+  destruct (Z.leb_spec 0 t); [|reflexivity]. destruct (Z.ltb_spec t (pow256 32)) as [L|]; [|reflexivity].
+  unfold pow256 in L. cbn in L. lia.
+Qed.
+
+(* the statement for 0x8000 <= t, kept from before the fix *)
+Lemma target_to_bits_core t :
+  32768 <= t < 2 ^ 256 ->
+  exists bits, target_to_bits t = Ok bits /\ length bits = 4%nat /\ bytes_ok bits /\
+               from_le bits = get_compact t.
+Proof. intros H. apply target_to_bits_all. lia. Qed.
+
+(* the two round trips through the compact form *)
+Lemma target_bits_target t bits :
+  0 <= t < 2 ^ 256 -> target_to_bits t = Ok bits ->
+  bits_to_target bits =
+  let '(v, neg, ovf) := set_compact (get_compact t) in if neg || ovf then Err else Ok (PInt v).
+Proof.
+  intros Ht E. destruct (target_to_bits_all t Ht) as [b [E' [L [Hok F]]]].
+  rewrite E in E'. injection E' as <-. rewrite <- F. now apply bits_to_target_eq_core.
 Qed.
 
 (* ------------------------------------------------------------------ *)
@@ -261,18 +281,30 @@ Proof.
   replace m with (256 * 65535 + (m - 16776960)) by lia. rewrite shiftr8 by lia. reflexivity.
 Qed.
 
-Lemma retarget_core bits td v :
-  compact_guard bits = true ->
+Lemma set_compact_nonneg n : 0 <= n -> 0 <= fst (fst (set_compact n)).
+Proof.
+  intros Hn. unfold set_compact. cbn [fst].
+  destruct (Z.shiftr n 24 <=? 3).
+  - apply Z.shiftr_nonneg. apply Z.land_nonneg. right. lia.
+  - unfold u256. apply Z.mod_pos_bound. reflexivity.
+Qed.
+
+(* calculate_new_bits = CalculateNextWorkRequired for EVERY previous four-byte bits value whose
+   target Core accepts (no negative / overflow flag, at most powLimit) — no lower bound any more *)
+Lemma retarget_core_all bits td v :
+  bytes_ok bits -> length bits = 4%nat ->
   set_compact (from_le bits) = (v, false, false) ->
-  131072 <= v <= pow_limit ->
+  v <= pow_limit ->
   exists nb, calculate_new_bits bits td = Ok nb /\ length nb = 4%nat /\
              from_le nb = next_work_required (from_le bits) td.
 Proof.
-  intros G SC Hv. destruct (bits_to_target_core bits G) as [v' [Ht [SC' Hr]]].
-  rewrite SC in SC'. injection SC' as <-.
+  intros Hok Hlen SC Hv.
+  pose proof (bits_to_target_eq_core bits Hok Hlen) as Ht. rewrite SC in Ht. cbn [orb] in Ht.
+  assert (0 <= v) as Hv0.
+  { pose proof (set_compact_nonneg (from_le bits)) as H0. rewrite SC in H0. cbn [fst] in H0.
+    apply H0. pose proof (from_le_bound bits Hok). lia. }
   unfold calculate_new_bits, next_work_required. rewrite Ht, SC. cbn [bind].
   change pow_target_timespan with TWO_WEEKS.
-  (* the two clamps commute *)
   set (tdp := if (if td >? TWO_WEEKS * 4 then TWO_WEEKS * 4 else td) <? TWO_WEEKS / 4
               then TWO_WEEKS / 4 else if td >? TWO_WEEKS * 4 then TWO_WEEKS * 4 else td).
   set (tdc := if (if td <? TWO_WEEKS / 4 then TWO_WEEKS / 4 else td) >? TWO_WEEKS * 4
@@ -286,13 +318,12 @@ Proof.
   { unfold pow_limit in Hv. apply Z.le_lt_trans with (m := (2 ^ 224 - 1) * 4838400); [nia | reflexivity]. }
   unfold u256. rewrite (Z.mod_small (v * tdc)) by nia.
   set (nt := v * tdc / TWO_WEEKS).
-  assert (32768 <= nt) as Hnt1.
-  { unfold nt. apply Z.div_le_lower_bound; [reflexivity|]. change TWO_WEEKS with 1209600. nia. }
+  assert (0 <= nt) as Hnt1.
+  { unfold nt. apply Z.div_pos; [nia | reflexivity]. }
   assert (nt < 2 ^ 256) as Hnt2.
   { unfold nt. apply Z.div_lt_upper_bound; [reflexivity|]. change TWO_WEEKS with 1209600. nia. }
   destruct (Z.gtb_spec nt MAX_TARGET) as [GM|GM].
-  - (* Python caps at MAX_TARGET *)
-    destruct (target_to_bits_core MAX_TARGET ltac:(split; [|reflexivity]; unfold MAX_TARGET; lia))
+  - destruct (target_to_bits_all MAX_TARGET ltac:(split; [|reflexivity]; unfold MAX_TARGET; lia))
       as [nb [E1 [E2 [_ E3]]]].
     exists nb. split; [exact E1|]. split; [exact E2|]. rewrite E3.
     rewrite (max_target_compact MAX_TARGET) by (unfold MAX_TARGET, pow_limit; split; [lia | intros H; discriminate H]).
@@ -302,6 +333,25 @@ Proof.
   - destruct (Z.gtb_spec nt pow_limit) as [GP|GP].
     { unfold MAX_TARGET, pow_limit in *. change (2 ^ 224) with (65536 * 256 ^ 26) in GP.
       change (29 - 3) with 26 in GM. lia. }
-    destruct (target_to_bits_core nt ltac:(lia)) as [nb [E1 [E2 [_ E3]]]].
+    destruct (target_to_bits_all nt ltac:(lia)) as [nb [E1 [E2 [_ E3]]]].
     exists nb. split; [exact E1|]. split; [exact E2 | exact E3].
+Qed.
+
+Lemma compact_guard_bytes bits : compact_guard bits = true -> bytes_ok bits /\ length bits = 4%nat.
+Proof.
+  unfold compact_guard. destruct bits as [|b0 [|b1 [|b2 [|e [|? ?]]]]]; try discriminate.
+  intros G. apply andb_true_iff in G as [G _]. apply andb_true_iff in G as [G _].
+  apply andb_true_iff in G as [Gok _]. split; [now apply bytes_okb_ok | reflexivity].
+Qed.
+
+(* the statement with the guard and the lower bound, kept from before the fix *)
+Lemma retarget_core bits td v :
+  compact_guard bits = true ->
+  set_compact (from_le bits) = (v, false, false) ->
+  131072 <= v <= pow_limit ->
+  exists nb, calculate_new_bits bits td = Ok nb /\ length nb = 4%nat /\
+             from_le nb = next_work_required (from_le bits) td.
+Proof.
+  intros G SC Hv. destruct (compact_guard_bytes bits G) as [Hok Hlen].
+  apply (retarget_core_all bits td v Hok Hlen SC). lia.
 Qed.
